@@ -1,0 +1,75 @@
+//go:build verif
+
+package memstorage
+
+// Contracts for IndexedStorage (property C12: a keyed store of per-index storages), read by the verification machinery in
+// /verif. Comment-only file. The cache is a ShrinkingMap of the pinned ds dependency (assumed contracts:
+// /verif/contracts/trusted/ds.spec); C abbreviates e.cache.m. Contracts are instantiated for int indexes, keys and values.
+
+/*@
+type IndexedStorage
+  monitor mutex guards cache
+
+-- Evict: the storage of the index (nil if there is none) leaves the cache; the other indexes keep theirs
+func IndexedStorage.Evict
+  instantiate IndexType: int
+  instantiate K: int
+  instantiate V: int
+  opt sequential
+  requires e != nil && e.cache != nil && e.cache.opts != nil && unlocked(e.mutex) && unlocked(e.cache.mutex)
+  modifies e.cache.m, e.cache.deletedKeys, map(e.cache.m)
+  ensures unlocked(e.mutex)
+  ensures old(has(e.cache.m, index)) ==> evictedStorage == old(e.cache.m[index])
+  ensures !old(has(e.cache.m, index)) ==> evictedStorage == nil
+  ensures !has(e.cache.m, index)
+  ensures forall k Int :: k != index ==> (has(e.cache.m, k) <==> old(has(e.cache.m, k))) && (has(e.cache.m, k) ==> e.cache.m[k] == old(e.cache.m[k]))
+
+-- Get: the storage of the index; a missing one is created (and kept) only on request
+func IndexedStorage.Get
+  instantiate IndexType: int
+  instantiate K: int
+  instantiate V: int
+  opt sequential
+  requires e != nil && e.cache != nil && unlocked(e.mutex) && unlocked(e.cache.mutex)
+  modifies map(e.cache.m)
+  ensures unlocked(e.mutex)
+  ensures old(has(e.cache.m, index)) ==> storage == old(e.cache.m[index]) && (forall k Int :: (has(e.cache.m, k) <==> old(has(e.cache.m, k))) && e.cache.m[k] == old(e.cache.m[k]))
+  ensures !old(has(e.cache.m, index)) && !(len(createIfMissing) > 0 && createIfMissing[0]) ==> storage == nil && (forall k Int :: (has(e.cache.m, k) <==> old(has(e.cache.m, k))))
+  ensures !old(has(e.cache.m, index)) && len(createIfMissing) > 0 && createIfMissing[0] ==> storage != nil && fresh(storage) && has(e.cache.m, index) && e.cache.m[index] == storage
+  ensures forall k Int :: k != index ==> (has(e.cache.m, k) <==> old(has(e.cache.m, k))) && e.cache.m[k] == old(e.cache.m[k])
+
+-- ForEach hands every pair to the consumer as it is
+func IndexedStorage.ForEach$1
+  instantiate IndexType: int
+  instantiate K: int
+  instantiate V: int
+  requires f != nil && *f != nil
+  callback f(i, s)
+  modifies nothing
+  ghost before call IndexedStorage.ForEach$1#f: assert arg0 == index && arg1 == storage
+  ensures r0
+
+-- Clear: keys and storages are collected pairwise (clearedStorages[i] is the storage of clearedKeys[i]) and the cache
+-- starts again empty
+func IndexedStorage.Clear$1
+  instantiate IndexType: int
+  instantiate K: int
+  instantiate V: int
+  requires clearedKeys != nil && clearedStorages != nil && clearedKeys != clearedStorages
+  modifies *clearedKeys, *clearedStorages, allelems(int)
+  maintains len(*clearedKeys) == len(*clearedStorages)
+  maintains cap(*clearedKeys) == 0 || cap(*clearedStorages) == 0 || base(*clearedKeys) != base(*clearedStorages)     -- two result slices, not one
+  ensures r0 && len(*clearedKeys) == old(len(*clearedKeys)) + 1
+  ensures (*clearedKeys)[old(len(*clearedKeys))] == index && (*clearedStorages)[old(len(*clearedKeys))] == storage
+  ensures forall i Int :: 0 <= i && i < old(len(*clearedKeys)) ==> (*clearedKeys)[i] == old((*clearedKeys)[i]) && (*clearedStorages)[i] == old((*clearedStorages)[i])
+
+func IndexedStorage.Clear
+  instantiate IndexType: int
+  instantiate K: int
+  instantiate V: int
+  opt sequential
+  requires e != nil && e.cache != nil && unlocked(e.mutex) && unlocked(e.cache.mutex)
+  modifies everything
+  ensures len(clearedKeys) == len(clearedStorages)
+  ensures e.cache != nil && fresh(e.cache) && (forall k Int :: !has(e.cache.m, k))
+@*/
